@@ -2268,6 +2268,20 @@ class Evaluator:
                 if T.tag(x) == 'raise':
                     return x
             return T.raw_op('LEADRUN', seq, item)
+        if isinstance(f, ast.Name) and f.id == 'setattr' and 'setattr' not in fr.env and len(e.args) == 3 and not e.keywords \
+                and isinstance(e.args[0], ast.Name):
+            # setattr(obj, 'name', value) with a name that is a constant when it is evaluated (a loop over a tuple of field
+            # names is unrolled): the attribute store it spells
+            nm = self.expr(e.args[1], fr)
+            if T.is_const(nm) and isinstance(nm[1], str) and nm[1].isidentifier():
+                v = self.expr(e.args[2], fr)
+                if T.tag(v) == 'raise':
+                    return v
+                tgt = ast.Attribute(value=ast.Name(id=e.args[0].id, ctx=ast.Load()), attr=nm[1], ctx=ast.Store())
+                ast.copy_location(tgt, e)
+                ast.fix_missing_locations(tgt)
+                self.assign(tgt, v, fr)
+                return T.NONE
         callee = self.expr(f, fr)
         if callee == T.ext('builtins.map') and len(e.args) == 2 and not e.keywords and not any(isinstance(a, ast.Starred) for a in e.args):
             # map(f, it) is [f(x) for x in it] for everything this analysis observes (what is iterated, in which order)
